@@ -3,5 +3,5 @@
 cd "$(dirname "$0")/.."; tier=${1:-quick}
 for p in $(python3 -c "import json; print(' '.join(c['property_id'] for c in json.load(open('MANIFEST.json'))['checks']))"); do
   s=$(date +%s); out=$(./check $p --tier $tier 2>&1); rc=$?; e=$(( $(date +%s) - s ))
-  echo "$p rc=$rc ${e}s $(echo "$out" | grep -c '^VIOLATION') violations, $(echo "$out" | grep -c '^KNOWN-FINDING') known; $(echo "$out" | grep -E '^(HARNESS|VIOLATION)' | head -1 | cut -c1-150)"
+  echo "$p rc=$rc ${e}s $(echo "$out" | grep -c '^VIOLATION') violations, $(echo "$out" | grep -c '^KNOWN-FINDING') known; $(echo "$out" | grep -A3 -E '^(HARNESS|VIOLATION)' | head -4 | tr '\n' ' ' | cut -c1-600)"
 done
